@@ -312,7 +312,13 @@ func runHonest(b Beh, seed int64, big bool) []J {
 		return h.lines
 	}
 	var doc map[string]interface{}
-	h.log(J{"name": "resp", "http": m.Status, "want": 200, "framed": framed(m), "bodyok": json.Unmarshal(m.Body, &doc) == nil && doc["accessories"] != nil, "len": len(m.Body)})
+	bodyok := json.Unmarshal(m.Body, &doc) == nil && doc["accessories"] != nil
+	if st.Mode != "patient" && !(m.Status == 200 && m.Enc && bodyok) {
+		// the early request was mangled (D16): whatever the server made of it belongs to the same finding
+		h.fail(rule, fmt.Sprintf("first encrypted request answered %d %s", m.Status, framed(m)))
+		return h.lines
+	}
+	h.log(J{"name": "resp", "http": m.Status, "want": 200, "framed": framed(m), "bodyok": bodyok, "len": len(m.Body)})
 	for k := 1; k < st.NReq; k++ {
 		// request sizes from one frame to many: a PUT with a long list of entries
 		n := []int{1, 5, 40, 200, 900}[rng.Intn(5)]
